@@ -27,8 +27,9 @@ NProf   == atoi(IOEnv.WOWM_NPROF)
 MaxLen  == atoi(IOEnv.WOWM_MAXLEN)
 Only    == IOEnv.WOWM_ONLY          \* "" or one message name
 Deep    == IOEnv.WOWM_DEEP = "1"    \* thorough: more flag subsets / enumerators
-FaultMode == IOEnv.WOWM_FAULTS       \* "0" | "c03" | "c04": also print fault records (see Fault families)
-FaultEvery == atoi(IOEnv.WOWM_FAULT_EVERY)  \* faults are derived from every n-th behaviour
+FaultMode == IF "WOWM_FAULTS" \in DOMAIN IOEnv THEN IOEnv.WOWM_FAULTS ELSE "0"       \* "0" | "c03" | "c04": also print fault records (see Fault families)
+FaultEvery == IF "WOWM_FAULT_EVERY" \in DOMAIN IOEnv THEN atoi(IOEnv.WOWM_FAULT_EVERY) ELSE 1  \* faults are derived from every n-th behaviour
+FaultPhase == IF "WOWM_FAULT_PHASE" \in DOMAIN IOEnv THEN atoi(IOEnv.WOWM_FAULT_PHASE) ELSE 0  \* which residue class (rotated by VERIF_SEED)
 
 VARIABLES root, prof, stack, scopes, out, fi, regions, sizepos, sizew, phase, note, ev
 
@@ -830,7 +831,7 @@ C04EnumFaults ==
                     v \in BadEnumValues(Objs[ev[j].tid], ev[j].len)} : j \in EnumEvents}
 
 (* the constant-sized (message, context) pairs are computed once by MCConst.tla and passed in *)
-ConstRoots == JsonDeserialize(IOEnv.WOWM_CONST)
+ConstRoots == IF "WOWM_CONST" \in DOMAIN IOEnv THEN JsonDeserialize(IOEnv.WOWM_CONST) ELSE <<>>
 IsConstSized == root.ctx.world /\ PlainBody /\ regions = <<>>
                 /\ \E j \in 1..Len(ConstRoots) : ConstRoots[j].id = root.id /\ ConstRoots[j].exp = root.ctx.exp
 
@@ -872,7 +873,7 @@ C03LongStrings ==
                                       Splice(b, ev[j], Rep(65, n), cut), "any", <<>>) EXCEPT !.regions = <<>>] :
                               cut \in {x \in cuts(j) : x < firstRegion}} : n \in {255, 256, 257}} : j \in strs}
 
-FaultsDue == phase = "done" /\ prof = 0 /\ FaultMode # "0" /\ (Len(out) + root.id) % FaultEvery = 0
+FaultsDue == phase = "done" /\ prof = 0 /\ FaultMode # "0" /\ (Len(out) + root.id + FaultPhase) % FaultEvery = 0
 
 FaultSet == IF FaultMode = "c04" THEN C04EnumFaults \cup C04SizeFaults ELSE C03Faults \cup C03LongStrings
 
